@@ -227,7 +227,22 @@ unsafe fn run_case_inner(case: &Case, st: &mut Stats) -> CaseResult {
     }
     let mut binops = 0;
     let mut counts = 0;
+    // text results handed out so far (pointer, what it read when it was returned, op): a C client may hold on to
+    // them, so each must still read the same after any later call
+    let mut texts: Vec<(*const c_char, String, usize)> = Vec::new();
     for (i, op) in case.ops.iter().enumerate() {
+        for (ptr, was, at_op) in texts.iter() {
+            let now = CStr::from_ptr(*ptr).to_string_lossy().to_string();
+            ensure!(
+                now == *was,
+                "C18/text-result-changed-after-a-later-call",
+                "the text returned by op #{} read `{}`; before op #{} the same pointer reads `{}`",
+                at_op,
+                was,
+                i,
+                now
+            );
+        }
         let len = cp.len();
         let at = |x: &u16| pick(*x, len);
         let vv = |raw: &u8| ((*raw as usize) * n) >> 8;
@@ -618,7 +633,9 @@ unsafe fn run_case_inner(case: &Case, st: &mut Stats) -> CaseResult {
             }
             COp::Print(a) => {
                 let a = at(a);
-                let text = CStr::from_ptr(print_bdd(cp[a])).to_string_lossy().to_string();
+                let tp_ptr = print_bdd(cp[a]);
+                let text = CStr::from_ptr(tp_ptr).to_string_lossy().to_string();
+                texts.push((tp_ptr as *const c_char, text.clone(), i));
                 ensure!(
                     text == np[a].print_bdd(),
                     "C18/print-bdd",
@@ -672,6 +689,7 @@ unsafe fn run_case_inner(case: &Case, st: &mut Stats) -> CaseResult {
                 let a = at(a);
                 let s = bdd_to_json(cp[a]);
                 let text = CStr::from_ptr(s).to_string_lossy().to_string();
+                texts.push((s as *const c_char, text.clone(), i));
                 let v: serde_json::Value = serde_json::from_str(&text).map_err(|e| Failure {
                     signature: "C18/json-unparsable".into(),
                     detail: format!("{}: {}", e, text),
@@ -915,7 +933,7 @@ fn selv() -> impl Strategy<Value = Vec<u8>> {
 impl SubCheckT for Abi {
     type Case = Case;
     const NAME: &'static str = "c_api";
-    const RULE: &'static str = "histories of <=40 C-API calls on one manager (mk_bdd_manager_default_order or robdd_builder_all_table over var_order_new / var_order_linear; 0..6 declared variables, the rest added at run time): bdd_var, bdd_true/false, bdd_negate/and/or/ite/compose, bdd_new_var, bdd_new_label, interleaved with bdd_eq, bdd_count_nodes, robdd_model_count, bdd_wmc / _complex / _poly (weights — normalised or not — set and read back through the wmc_param_* / weight_* / polynomial_* calls, one polynomial weight of up to 32 coefficients, one with independent low/high lengths 0..40, short read-back buffers), handles from bdd_low / bdd_high used as operands, bdd_to_json, print_bdd, bdd_num_recursive_calls, bdd_scratch/set_scratch/clear_scratch, in lock step with a native RobddBuilder: the truth table read through bdd_is_true/false/topvar/low/high equals the one read off the native result, bdd_eq = native eq, topvar/low/high and whole results are isomorphic to the native ones, counts equal the native values exactly, model count = native smooth-and-count over the manager's current variables (differences between native results and the oracle are recorded only: they are other properties' concern); then the one-shot wrappers cnf_new/literal_new, cnf_from_dimacs, cnf_min_fill_order, dtree_from_cnf, vtree_from_dtree, robdd_builder_compile_cnf, sdd_builder_new/compile_cnf/sdd_wmc, ddnnf_builder_new/compile_cnf_topdown against their native counterparts. In about 1 % of the cases one more model count is taken on a manager with 21 or 22 variables (counts above 2^20). Non-trivial: >=1 binary/ternary op and >=1 count query";
+    const RULE: &'static str = "histories of <=40 C-API calls on one manager (mk_bdd_manager_default_order or robdd_builder_all_table over var_order_new / var_order_linear; 0..6 declared variables, the rest added at run time): bdd_var, bdd_true/false, bdd_negate/and/or/ite/compose, bdd_new_var, bdd_new_label, interleaved with bdd_eq, bdd_count_nodes, robdd_model_count, bdd_wmc / _complex / _poly (weights — normalised or not — set and read back through the wmc_param_* / weight_* / polynomial_* calls, one polynomial weight of up to 32 coefficients, one with independent low/high lengths 0..40, short read-back buffers), handles from bdd_low / bdd_high used as operands, bdd_to_json, print_bdd (every text pointer handed out is read again before each later call and must not have changed), bdd_num_recursive_calls, bdd_scratch/set_scratch/clear_scratch, in lock step with a native RobddBuilder: the truth table read through bdd_is_true/false/topvar/low/high equals the one read off the native result, bdd_eq = native eq, topvar/low/high and whole results are isomorphic to the native ones, counts equal the native values exactly, model count = native smooth-and-count over the manager's current variables (differences between native results and the oracle are recorded only: they are other properties' concern); then the one-shot wrappers cnf_new/literal_new, cnf_from_dimacs, cnf_min_fill_order, dtree_from_cnf, vtree_from_dtree, robdd_builder_compile_cnf, sdd_builder_new/compile_cnf/sdd_wmc, ddnnf_builder_new/compile_cnf_topdown against their native counterparts. In about 1 % of the cases one more model count is taken on a manager with 21 or 22 variables (counts above 2^20). Non-trivial: >=1 binary/ternary op and >=1 count query";
     fn cases(tier: Tier) -> u32 {
         tier.pick(5000, 60_000)
     }
